@@ -367,6 +367,9 @@ var ops = []op{
 		defer func() { e.rec = append(e.rec, fmt.Sprintf("PANIC:%v", recover())) }()
 		e.get("J").Panic("m-panic", zap.Int("a", 1))
 	}},
+	{"nocaller", "caller annotation and stack trace requested with a skip deeper than the stack (nothing captured; reported on the error output)", func(e *env) {
+		e.get("J").WithOptions(zap.AddCaller(), zap.AddCallerSkip(1000), zap.AddStacktrace(zap.DebugLevel)).Info("m-nocaller", zap.StackSkip("deep", 1000))
+	}},
 	{"gc", "garbage collection: every pool emptied", func(e *env) { vsched.DropPools() }},
 	{"with", "derive a child with namespaced context in the current pool state, log through it", func(e *env) {
 		e.get("J").With(zap.Int("w", 1), zap.Namespace("wn"), zap.Reflect("wr", pair{9, "w"})).Info("m-with", zap.Int("k", 1))
@@ -434,12 +437,13 @@ func runSeq(e *env, seq []int) []string {
 //
 //go:noinline
 func seqBody(seq []int, out *[]string) func() {
-	return func() { *out = runSeq(newEnv(), seq) }
+	return func() { poolMisuse = ""; *out = runSeq(newEnv(), seq) }
 }
 
 //go:noinline
 func concBody(progs [][]int, outs [][]string) func() {
 	return func() {
+		poolMisuse = ""
 		var wg vsync.WaitGroup
 		for t := range progs {
 			t := t
@@ -450,7 +454,16 @@ func concBody(progs [][]int, outs [][]string) func() {
 	}
 }
 
+// poolMisuse names the first object that was returned to its pool while it was already in it
+// (two later Gets would then own the same object: released storage observable by construction).
+var poolMisuse string
+
 func poison() {
+	vsched.PoolDoublePut = func(x any) {
+		if poolMisuse == "" {
+			poolMisuse = fmt.Sprintf("%T", x)
+		}
+	}
 	vsched.PoolPutHook = func(x any) {
 		switch b := x.(type) {
 		case *buffer.Buffer:
@@ -510,6 +523,9 @@ func refOne(k int) *mc.Violation {
 		}
 		if res.Verdict != vsched.OK {
 			panic(mc.ToolErr{Msg: fmt.Sprintf("reference run (thread) of %s: verdict %d", ops[k].name, res.Verdict)})
+		}
+		if poolMisuse != "" {
+			return bad("a %s was returned to its pool twice without being taken out in between (two later calls would share it)", poolMisuse)
 		}
 		got, gotc := o1[0], o2[0][0]
 		if round == 1 && (got != refSeq[k] || gotc != refConc[k]) {
@@ -575,6 +591,9 @@ func seqExec(seq []int) func() mc.Exec {
 		return mc.Exec{
 			Body: seqBody(seq, &out),
 			Check: func(vsched.Result) (string, error) {
+				if poolMisuse != "" {
+					return "", fmt.Errorf("history %s: a %s was returned to its pool twice without being taken out in between (two later calls would share it)", seqName(seq), poolMisuse)
+				}
 				for i, k := range seq {
 					if out[i] != refSeq[k] {
 						return "", fmt.Errorf("history %s: output of step %d (%s: %s) differs from the output of the same call made first after a pool reset; %s",
@@ -594,6 +613,9 @@ func concExec(progs [][]int) func() mc.Exec {
 		return mc.Exec{
 			Body: concBody(progs, outs),
 			Check: func(vsched.Result) (string, error) {
+				if poolMisuse != "" {
+					return "", fmt.Errorf("threads %s: a %s was returned to its pool twice without being taken out in between (two later calls would share it)", progNames(progs), poolMisuse)
+				}
 				for t, p := range progs {
 					for i, k := range p {
 						if outs[t][i] != refConc[k] {
